@@ -148,6 +148,17 @@ def r_big(cid, nblocks, alloc, limit_abs=10 ** 6, out=None, size=3):
             "stream": list(range(1, nblocks + 1)), "root": nblocks}
 
 
+def r_repeat(cid, m, dists, partial):
+    """m distinct tiny blocks in one sharded add, then some of them handed in again: re-adding block k
+    means m-k distinct blocks came in between.  A repeated block must not be ingested again, however
+    far back its first occurrence is (Partition: every block linked exactly once across the shards)."""
+    c = r_big(cid, m, [{"ok": True, "peers": ["p1"]}], limit_abs=3 * 5000 + 1)
+    c["class"] = "repeat-within-%d" % m
+    c["stream"] = list(range(1, m + 1)) + [m - d for d in dists if 0 <= d < m]
+    c["partial"] = partial
+    return c
+
+
 CHUNKERS = [("size-256", 256), ("size-1024", 1024), ("size-4096", 4096), ("size-262144", 262144), ("", 262144),
             ("rabin-128-256-512", 256), ("rabin-2048", 2048), ("buzhash", 262144)]
 HASHES = ["sha2-256", "sha2-256", "sha2-512", "blake2b-256", "sha3-256"]
@@ -259,6 +270,15 @@ def gen_cases(ctx):
                   out={"p1": [], "p2": ["ok"] * 3000 + ["rpc"], "p3": ["ok"] * 10 + ["app"]}))
         add(r_big(0, 2 * MAXLINKS, local))         # exact multiple: the empty trailing leaf
         add(r_big(0, 2 * MAXLINKS + 5, local, limit_abs=3 * (MAXLINKS + 3) + 1))   # indirect shard, then a direct one
+    # a block handed in again after N distinct ones (de-duplication must span the whole add).  The closed-form
+    # Run(in) costs TLC O(n^2), so the long streams are judged by the property predicates only (partial).
+    add(r_repeat(0, 300, [0, 1, 2, 50, 299], partial=False))
+    add(r_repeat(0, 20001, [1, MAXLINKS, 16384, 16385, 20000], partial=True))
+    if not quick:
+        ds = sorted(set([2 ** e + d for e in range(4, 17) for d in (-1, 0, 1)] + [10000, 50000, 70000] +
+                        [rng.randint(2, 70000) for _ in range(40)]))
+        add(r_repeat(0, 70001, ds, partial=True))
+        add(r_repeat(0, 33000, [d for d in ds if d < 33000][::3], partial=True))
     for _ in range(120 if quick else 4000):
         add(v_case(rng, 0, big_ok=not quick or rng.random() < 0.15))
     # put failure exactly at the first chunk of a two-chunk file (balanced layout): see known_findings.d/c13.json
